@@ -155,7 +155,7 @@ def generate(rng, tier):
             del case["kw"][k]
     if fn in ("strongly_connected_components_edges", "topological_sort_edges", "bfs_edges", "dfs_edges") and rng.random() < 0.01:
         # one deep path (a thousand or more nodes in a row, plus a few extra edges): depth, not size, is the point
-        n = case["n"] = rng.choice([1100, 1500, 3000])
+        n = case["n"] = rng.choice([1100, 1500, 3000, 3000, 60000])  # 60000: deeper than a native stack survives with one frame per node
         perm = list(range(n))
         if rng.random() < 0.5:
             rng.shuffle(perm)
